@@ -15,19 +15,46 @@ using namespace vf;
 
 namespace
 {
+// A memory resource with deliberately unsynchronised bookkeeping (like std::pmr::monotonic_buffer_resource): using one
+// arena from two threads is a data race. Default-constructed allocators and select_on_container_copy_construction use the
+// calling thread's own arena (like the pmr default resource), so copies made by a thread never touch the arena of the
+// shared vector they were copied from.
+struct Arena
+{
+    uint64_t allocations = 0;
+    uint64_t bytes = 0;
+};
+
+inline Arena& thread_arena()
+{
+    thread_local Arena a;
+    return a;
+}
+
 template <class T>
 struct TsAlloc
 {
     using value_type = T;
-    int arena = 0;
-    TsAlloc() = default;
-    explicit TsAlloc(int a) : arena(a) {}
+    Arena* arena;
+    TsAlloc() : arena(&thread_arena()) {}
+    explicit TsAlloc(Arena& a) : arena(&a) {}
     template <class U>
     TsAlloc(const TsAlloc<U>& o) noexcept : arena(o.arena)
     {
     }
-    T* allocate(std::size_t n) { return static_cast<T*>(::operator new(n * sizeof(T) + 1, std::align_val_t(alignof(T) < 16 ? 16 : alignof(T)))); }
-    void deallocate(T* p, std::size_t) noexcept { ::operator delete(p, std::align_val_t(alignof(T) < 16 ? 16 : alignof(T))); }
+    T* allocate(std::size_t n)
+    {
+        ++arena->allocations;
+        arena->bytes += n * sizeof(T);
+        return static_cast<T*>(::operator new(n * sizeof(T) + 1, std::align_val_t(alignof(T) < 16 ? 16 : alignof(T))));
+    }
+    void deallocate(T* p, std::size_t n) noexcept
+    {
+        ++arena->allocations;
+        arena->bytes -= n * sizeof(T);
+        ::operator delete(p, std::align_val_t(alignof(T) < 16 ? 16 : alignof(T)));
+    }
+    TsAlloc select_on_container_copy_construction() const { return TsAlloc{}; }
     template <class U>
     friend bool operator==(const TsAlloc& a, const TsAlloc<U>& b) noexcept
     {
@@ -85,7 +112,7 @@ struct Engine
     using G = Glue<Cfg>;
     static constexpr size_t NF = Cfg::NF;
 
-    static Vec make(Rng& rng, size_t n, size_t extra_cap, const std::vector<size_t>& fixed, int arena, uint64_t& next_id)
+    static Vec make(Rng& rng, size_t n, size_t extra_cap, const std::vector<size_t>& fixed, Arena& arena, uint64_t& next_id)
     {
         std::vector<MElem> es;
         size_t payload = 0;
@@ -156,7 +183,7 @@ struct Engine
                     break;
                 case R_QUERIES:
                     sink += v.size() + v.capacity() + v.empty() + v.memory_consumption() + reinterpret_cast<uintptr_t>(v.data_begin()) % 3 + reinterpret_cast<uintptr_t>(v.data_end()) % 3 +
-                            static_cast<uint64_t>(v.get_allocator().arena) + (v.end() - v.begin());
+                            static_cast<uint64_t>(v.get_allocator().arena != nullptr) + (v.end() - v.begin());
                     if constexpr (Cfg::N_FIXED != 0) sink += v.template get_fixed_size<0>();
                     break;
                 case R_COMPARE_VECTORS: sink += (a == b) + (a != b) * 2 + (a < b) * 4 + (a <= b) * 8 + (a > b) * 16 + (a >= b) * 32 + (v == v); break;
@@ -186,7 +213,7 @@ struct Engine
                         }
                     }
                     break;
-                case R_ELEMENT_READ: sink += digest(shared_elem) + static_cast<uint64_t>(shared_elem.get_allocator().arena); break;
+                case R_ELEMENT_READ: sink += digest(shared_elem) + static_cast<uint64_t>(shared_elem.get_allocator().arena != nullptr); break;
             }
         }
         g_sink.fetch_add(sink, std::memory_order_relaxed);
@@ -264,15 +291,17 @@ struct Engine
         uint64_t next_id = 1;
         std::vector<size_t> fixed;
         for (size_t i = 0; i < Cfg::N_FIXED; ++i) fixed.push_back(1 + static_cast<size_t>(rng.below(3)));
-        const Vec a = make(rng, 2 + static_cast<size_t>(rng.below(4)), static_cast<size_t>(rng.below(3)), fixed, 1, next_id);
+        // the shared objects live in arenas that only the main thread uses (before the threads start and after they ended)
+        Arena arena_a, arena_b, arena_e, arena_s;
+        const Vec a = make(rng, 2 + static_cast<size_t>(rng.below(4)), static_cast<size_t>(rng.below(3)), fixed, arena_a, next_id);
         uint64_t id2 = rng.chance(1, 2) ? 1 : next_id;
-        const Vec b = make(rng, static_cast<size_t>(rng.below(5)), 1, fixed, 2, id2);
+        const Vec b = make(rng, static_cast<size_t>(rng.below(5)), 1, fixed, arena_b, id2);
         std::optional<E> shared_elem;
         {
             // taken from a scratch vector so that the shared vectors stay untouched
             uint64_t id3 = 1;
-            Vec scratch = make(rng, 1, 0, fixed, 3, id3);
-            shared_elem.emplace(std::move(scratch[0]));
+            Vec scratch = make(rng, 1, 0, fixed, arena_s, id3);
+            shared_elem.emplace(std::move(scratch[0]), typename E::allocator_type{arena_e});
         }
         g_go.store(false, std::memory_order_relaxed);
         std::vector<std::thread> ts;
